@@ -130,7 +130,7 @@ def ops_for(obj, m, depth):
             if o != m.active:
                 ops.append(("d_set_geometry", o))
         parquet_ok = True
-        for o in (g + [None]) if (depth <= 1 or THOROUGH[0]) else [x for x in g if x != m.active][:1]:
+        for o in (g + [None]) if (depth <= 1 or THOROUGH[0]) else [x for x in g if x != m.active][-1:]:      # a column that is not the first
             if parquet_ok:
                 ops.append(("d_parquet", o))
         if depth <= 1:
